@@ -17,7 +17,7 @@ one() {
   id=$1; slot=$2; W=$WORK/w$slot; V=$WORK/v$slot
   cd $W || return
   if ! git apply $ROOT/$id/patch.diff 2>/dev/null; then echo "$id APPLY-FAILED"; git reset -q --hard HEAD; return; fi
-  /verif/bin/kmcheck -prop all -repo $W -verif $V > $V/out-$id.txt 2>&1
+  /verif/bin/kmcheck -prop ${PROP:-all} -repo $W -verif $V > $V/out-$id.txt 2>&1
   hits=$(grep -oE "^VIOLATION property=C[0-9]+" $V/out-$id.txt | sort -u | sed 's/VIOLATION property=//' | paste -sd, )
   rules=$(grep -oE "^(FAIL |.*ANCHOR-LOST rule=)R-C[0-9]+-[0-9]+" $V/out-$id.txt | grep -oE "R-C[0-9]+-[0-9]+" | sort -u | paste -sd, )
   echo "$id alarms=${hits:-NONE} rules=${rules:-none}"
